@@ -1,5 +1,6 @@
 import Driver.Util
 import GinjaxVerif.Model.C20
+import GinjaxVerif.Model.C20Banks
 open Lean Driver GinjaxVerif.C20
 
 namespace Driver.C20
@@ -118,6 +119,23 @@ def handle (op : String) (j : Json) : R Json := do
     match convContract bank declared target bias opts x with
     | none => throw "raises"
     | some y => pure (Json.mkObj [("out", jObs y), ("legacy_sig", jSig legacy), ("spec_sig", jSig spec)])
+  | "c20.reach" =>
+    -- closed forms of Model/C20Banks.lean for an arbitrary bank: the layerwise signature chain
+    let cls ← strF j "class"
+    let cfg ← field j "cfg" >>= asCfg
+    if !cfg.equivariant then throw "bad-op: c20.reach is about equivariant models"
+    let closed ← match cls with
+      | "unet" => pure (unetSig cfg)
+      | "resnet" => pure (resnetSig cfg)
+      | "dilresnet" => pure (dilresnetSig cfg)
+      | _ => throw s!"unknown class {cls}"
+    let jOptSig : Option Sig → Json := fun o => match o with | none => Json.null | some s => jSig s
+    let enc := if cls == "unet" then levelSig cfg cfg.mid cfg.inSig else encoderSig cfg
+    let absent := match closed with
+      | none => []
+      | some s => absentTypes cfg.outSig s
+    pure (Json.mkObj [("closed", jOptSig closed), ("first_mid", jSig enc),
+      ("absent", jList jTy absent), ("mid", jSig cfg.mid)])
   | "c20.union" =>
     let a ← field j "a" >>= asSig
     let b ← field j "b" >>= asSig
